@@ -26,6 +26,9 @@ import (
 	"time"
 
 	"github.com/IrineSistiana/mosproxy/app/router"
+	"github.com/IrineSistiana/mosproxy/internal/dnsmsg"
+	"github.com/IrineSistiana/mosproxy/internal/pool"
+	"github.com/miekg/dns"
 )
 
 type c08rval struct {
@@ -262,7 +265,86 @@ func c08redisRun(cs string) string {
 		}
 		return c08rhist(m)
 	}
+	if m["op"] == "twotier" {
+		return c08twoTier(m)
+	}
+	if m["op"] == "rstart" {
+		return c08redisStart(m)
+	}
 	return "bad-op"
+}
+
+// op=twotier big=<octets of TXT data> rcode=<error rcode>: memory cache (mem_size 4096: an entry above a tenth of
+// it is rejected) in front of redis. A positive answer of `big` octets is stored (redis holds it, the memory cache
+// may not), then an error response for the same question: the lookup that follows must still be the positive
+// answer — "absent in the memory cache" is not "absent in the cache" (D61, e6d2a98).   out: got=<pos|neg|miss>
+func c08twoTier(m map[string]string) string {
+	rs := c08newRedis(0)
+	defer rs.close()
+	cfg := &router.Config{
+		Upstreams: []router.UpstreamConfig{{Tag: "u", Addr: "udp://127.0.0.1:9"}},
+		Rules:     []router.RuleConfig{{Forward: "u"}},
+		Cache:     router.CacheConfig{MemSize: 4096, Redis: "redis://" + rs.l.Addr().String()},
+	}
+	r, err := router.VerifRun(cfg)
+	if err != nil {
+		return "fixture-error"
+	}
+	defer r.Close()
+	time.Sleep(1100 * time.Millisecond) // (before 78c2f26 the redis cache was not used during its first second)
+	nonce := c08nonce.Add(1)
+	q := c08question(nonce)
+	name := c08name(nonce, 0)
+	pos := c08mkMsg(name, 1, dns.RcodeSuccess, false, []c08rr{{typ: dns.TypeA, ttl: 300}}, nil, nil)
+	for n := atoi(m["big"]); n > 0; n -= 200 { // pad with TXT-like records of 200 octets
+		rr := dnsmsg.NewRaw()
+		rr.Name = nameBuf(pos.Answers[0].Hdr().Name)
+		rr.Type, rr.Class, rr.TTL = 16, 1, 300
+		d := make([]byte, 200)
+		d[0] = 199
+		rr.Data = pool.GetBuf(len(d))
+		copy(rr.Data, d)
+		pos.Additionals = append(pos.Additionals, rr)
+	}
+	neg := c08mkMsg(name, 2, atoi(m["rcode"]), false, nil, nil, nil)
+	r.CacheStore(q, c08remote.Addr(), pos)
+	for i := 0; i < 100 && rs.setCount() < 1; i++ {
+		time.Sleep(10 * time.Millisecond)
+	}
+	r.CacheStore(q, c08remote.Addr(), neg)
+	time.Sleep(60 * time.Millisecond)
+	g, _, _ := r.CacheGet(q, c08remote)
+	defer func() { dnsmsg.ReleaseMsg(pos); dnsmsg.ReleaseMsg(neg); dnsmsg.ReleaseQuestion(q) }()
+	if g == nil {
+		return "got=miss"
+	}
+	defer dnsmsg.ReleaseMsg(g)
+	if g.Header.RCode == dnsmsg.RCodeSuccess && len(g.Answers) == 1 {
+		return "got=pos"
+	}
+	return "got=neg"
+}
+
+// op=rstart wait=<ms>: redis only; an answer stored `wait` ms after start-up and looked up 150 ms later is a hit —
+// the cache works from the moment the client has connected (D62, 78c2f26).   out: got=<hit|miss>
+func c08redisStart(m map[string]string) string {
+	rs := c08newRedis(0)
+	defer rs.close()
+	r := c08newRedisRouter(0, false, rs)
+	defer r.Close()
+	time.Sleep(time.Duration(atoi(m["wait"])) * time.Millisecond)
+	nonce := c08nonce.Add(1)
+	q := c08question(nonce)
+	pos := c08mkMsg(c08name(nonce, 0), 1, dns.RcodeSuccess, false, []c08rr{{typ: dns.TypeA, ttl: 300}}, nil, nil)
+	defer func() { dnsmsg.ReleaseMsg(pos); dnsmsg.ReleaseQuestion(q) }()
+	r.CacheStore(q, c08remote.Addr(), pos)
+	time.Sleep(150 * time.Millisecond)
+	g, _, _ := r.CacheGet(q, c08remote)
+	if g == nil {
+		return "got=miss"
+	}
+	dnsmsg.ReleaseMsg(g)
+	return "got=hit"
 }
 
 // results of the histories the generator already ran concurrently
@@ -446,6 +528,11 @@ func c08redisGen(r *rand.Rand, thorough bool, emit func(c, cat string)) {
 		c08rpre[cs] = res[i]
 		emit(cs, cats[i])
 	}
+	// two tiers that disagree (the memory cache rejects an entry above a tenth of its size); the first second
+	for _, big := range []int{0, 800} {
+		emit(fmt.Sprintf("op=twotier big=%d rcode=%d", big, []int{3, 2, 5}[r.Intn(3)]), fmt.Sprintf("twotier-big%d", big))
+	}
+	emit(fmt.Sprintf("op=rstart wait=%d", []int{0, 100, 400}[r.Intn(3)]), "first-second")
 }
 
 func init() {
